@@ -720,7 +720,7 @@ class C06(Check):
         m = ans[0]
         sm = [[list(k), v] for k, v in m[0]]
         if m[1][0] == "Ok":
-            summ = {"rows": [[list(k), c, ["Q", 100 * c, t]] for k, c, t in m[1][1]], "total": m[1][2]}
+            summ = {"rows": [[list(k), c, (["Q", 100 * c, t] if t != 0 else "nan")] for k, c, t in m[1][1]], "total": m[1][2]}
         else:
             summ = ["Err", str(m[1][1])]
         cov = [[[str(x) for x in p], str(i), list(u), list(un)] for p, i, u, un in m[2]]
@@ -785,10 +785,8 @@ class C06(Check):
             self._oracle(case, ia, s)
         buckets = sorted([[list(k), v] for k, v in s[0]])
         sloc = s[1]
-        if buckets and sloc == 0:
-            summ = ["Err", "ZeroDivisionError"]
-        else:
-            summ = {"rows": sorted([[k, c, ["Q", 100 * c, sloc]] for k, c in buckets]), "total": sloc}
+        # a zero total prints NaN percentages (report.summary no longer raises)
+        summ = {"rows": sorted([[k, c, (["Q", 100 * c, sloc] if sloc != 0 else "nan")] for k, c in buckets]), "total": sloc}
         cov = sorted([[str(x) for x in p], str(i), sorted(u), sorted(un)] for p, i, u, un in s[2])
 
         def tree(t, levels):
